@@ -237,6 +237,9 @@ fn stream_classes(case: &Case, run: &StreamRun, expect: &[M], ctx: &mut Ctx) -> 
 // ------------------------------------------------------------------ C07
 
 fn c07_check(case: &Case, ctx: &mut Ctx) -> Result<(), String> {
+    if case.sub.starts_with("long-pattern:") {
+        return replay_long_scenario(case, false);
+    }
     sound(case)?;
     let s = Searcher::build(&case.cfg, &case.patterns)?;
     let expect = expected_matches(case);
@@ -489,8 +492,27 @@ pub fn long_scenarios(tier: Tier) -> Vec<LongScenario> {
     out
 }
 
+/// Replay of a scenario stand-in (the replay file keeps the parameters, not
+/// the multi-megabyte stream): re-run the matching scenario(s).
+fn replay_long_scenario(case: &Case, with_faults: bool) -> Result<(), String> {
+    let l = case.params.first().copied().unwrap_or(0) as usize;
+    let mut ctx = Ctx::default();
+    let scenarios: Vec<LongScenario> = long_scenarios(Tier::Thorough)
+        .into_iter()
+        .filter(|s| s.case.patterns[0].len() == l && s.case.cfg.engine == case.cfg.engine)
+        .collect();
+    if scenarios.is_empty() {
+        return Err(format!("no long-pattern scenario with L = {} and engine {:?}", l, case.cfg.engine));
+    }
+    run_scenario_list("C07", &scenarios, &mut ctx, with_faults).map(|_| ()).map_err(|v| v.reason)
+}
+
 fn run_long_scenarios(prop: &'static str, tier: Tier, ctx: &mut Ctx, with_faults: bool) -> Result<bool, crate::runner::Violation> {
     let scenarios = long_scenarios(tier);
+    run_scenario_list(prop, &scenarios, ctx, with_faults)
+}
+
+fn run_scenario_list(prop: &'static str, scenarios: &[LongScenario], ctx: &mut Ctx, with_faults: bool) -> Result<bool, crate::runner::Violation> {
     let results: Vec<Result<(), crate::runner::Violation>> = std::thread::scope(|sc| {
         let hs: Vec<_> = scenarios
             .iter()
@@ -720,6 +742,9 @@ fn is_prefix<T: PartialEq>(a: &[T], b: &[T]) -> bool {
 }
 
 fn c18_check(case: &Case, ctx: &mut Ctx) -> Result<(), String> {
+    if case.sub.starts_with("long-pattern:") {
+        return replay_long_scenario(case, true);
+    }
     sound(case)?;
     if case.repl.len() != case.patterns.len() {
         return Err("unsound C18 case: replacement table length".into());
